@@ -168,6 +168,94 @@ def rule_pool(ck: Check, repo: Repo) -> None:
                         repo.loc(init))
 
 
+WORKER = "reuse.report._MultiprocessingContainer.__call__"
+# in-place updates of longer-lived state that the per-file task is allowed to make: (function, target) -> reason
+WORKER_STATE_EXCEPTIONS = {
+    (WORKER, "self.reuse_dep5"): "lazy, idempotent re-parse of .reuse/dep5 inside a worker (R2 checks the guard and the value)",
+    (WORKER, "self.project.global_licensing"): "same memo: the parsed dep5 is stored where the serial path reads it (R2)",
+}
+
+
+def _param_fresh_at_all_sites(repo: Repo, cg: CallGraph, fr, reach, q: str, recv: ast.AST, depth: int) -> bool:
+    """`recv` is a bare parameter of q (or a subscript of one) and every call site of q inside the task passes an
+    object created by the caller."""
+    while isinstance(recv, ast.Subscript):
+        recv = recv.value
+    if not isinstance(recv, ast.Name) or depth == 0:
+        return False
+    fn = repo.functions[q]
+    params = [a.arg for a in fn.args.posonlyargs + fn.args.args]
+    if recv.id not in params or recv.id in ("self", "cls"):
+        return False
+    pos = params.index(recv.id)
+    is_method = bool(params) and params[0] in ("self", "cls")
+    sites = [(g, node) for g in reach for t, node in cg.edges.get(g, []) if t == q and isinstance(node, ast.Call)]
+    if not sites:
+        return False
+    for g, call in sites:
+        arg = None
+        apos = pos - 1 if is_method else pos
+        if 0 <= apos < len(call.args) and not any(isinstance(a, ast.Starred) for a in call.args):
+            arg = call.args[apos]
+        for kw in call.keywords:
+            if kw.arg == recv.id:
+                arg = kw.value
+        if arg is None:
+            return False
+        gfn = repo.functions[g]
+        if fr.fresh(arg, gfn, g):
+            continue
+        if not _param_fresh_at_all_sites(repo, cg, fr, reach, g, arg, depth - 1):
+            return False
+    return True
+
+
+def rule_task_purity(ck: Check, repo: Repo, cg: CallGraph, rid: str = "R6") -> None:
+    """The result for one file may not depend on which files the same process handled before (serial run vs pool
+    chunks vs enumeration order).  Structural necessary condition: the per-file task mutates in place only objects it
+    created itself (freshness analysis, sa/fresh.py)."""
+    from ..fresh import Fresh
+    r = ck.rule(rid, "the per-file task mutates only objects it created (no state carried from one file to the next)")
+    idx: dict = {}
+    for q, es in cg.edges.items():
+        for t, n in es:
+            idx.setdefault((q, id(n)), []).append(t)
+    fr = Fresh(repo, lambda q, c: idx.get((q, id(c)), []))
+    if WORKER not in repo.functions:
+        raise AnalysisError(f"anchor vanished: {WORKER}")
+    reach = cg.reachable([WORKER])
+    ck.extra["task_functions"] = len(reach)
+    if len(reach) < 25:
+        raise AnalysisError(f"per-file task reach set too small: {len(reach)}")
+    n_sites = 0
+    used = set()
+    for q in sorted(reach):
+        fn = repo.functions[q]
+        for node, recv, what, ok in fr.mutations(fn, q):
+            n_sites += 1
+            tgt = what.split(" = ")[0].split(" ")[0] if " = " in what else ast.unparse(recv)
+            exc = WORKER_STATE_EXCEPTIONS.get((q, tgt))
+            r.instance(f"{q}:{what}@{n_sites}", {"function": q, "mutation": what, "own_object": ok, "exception": exc}, q)
+            if ok:
+                continue
+            if exc:
+                used.add((q, tgt))
+                continue
+            if _param_fresh_at_all_sites(repo, cg, fr, reach, q, recv, 2):
+                continue  # an accumulator handed in by the caller, who created it (helper extracted from its caller)
+            chain = " -> ".join(x.split(".")[-1] for x in cg.chain(reach, q))
+            r.violation(q, f"in-place mutation of an object the task did not create: {what}",
+                        f"`{ast.unparse(node)[:80]}` changes state that outlives the file being processed (call chain {chain}):"
+                        f" the result for later files depends on which files this process handled before - serial run, pool"
+                        f" chunks and enumeration order can then disagree", repo.loc(node))
+    r.floor(40, "mutation sites in the per-file task", got=n_sites)
+    # positive control: the engine must see a mutation through a loop variable as not-own
+    ctl = ast.parse("def f(infos):\n    out = []\n    for i in infos:\n        i.lines.clear()\n        out.append(i)\n    return out\n").body[0]
+    got = [(w, ok) for _, _, w, ok in fr.mutations(ctl, "ctl.f")]
+    if got != [("i.lines.clear(…)", False), ("out.append(…)", True)]:
+        raise AnalysisError(f"C14-{rid} positive control failed: {got}")
+
+
 def rule_toml_order(ck: Check, repo: Repo) -> None:
     from . import c04
     c04.rule_nesting_sort_only(ck, repo, "R3")
@@ -197,3 +285,4 @@ def run(ck: Check, repo: Repo) -> None:
     r4 = ck.rule("R4", "identifiers derived by hashing take only root-relative inputs (clause of root-spelling independence)")
     from . import c18
     c18.spdx_id_inputs(ck, repo, r4)
+    rule_task_purity(ck, repo, cg)
